@@ -38,6 +38,10 @@ def gen_history(r: random.Random):
         "max_keepalive": r.choice([0, 1, 2, None]),
         "keepalive_expiry": r.choice([0, 5.0, 5.0, None]),
     }
+    if cfg["proto"] == "h2" and r.random() < 0.5:
+        # legal chatter: the server follows every response with a PING / a byte of credit a little later, so the socket
+        # of the idle HTTP/2 connection is readable once the clock has moved - which says nothing about its health
+        cfg["h2_after_end"] = r.choice(["ping", "wu"])
     steps = []
     held = 0
     exp = cfg["keepalive_expiry"]
@@ -125,7 +129,9 @@ class Model:
         if exp is None:
             return "fresh"
         age = now - self.idle_since[t]
-        if abs(age - exp) <= EPS:
+        # (with server chatter a response is delivered up to 10 ms of virtual time after the frame before it, so the clock
+        # moves a little inside a step and an age this close to the expiry may fall on either side of it)
+        if abs(age - exp) <= (0.05 if self.cfg.get("h2_after_end") else EPS):
             return "boundary"
         return "expired" if age > exp else "fresh"
 
@@ -134,8 +140,10 @@ async def run_history(flavor, cfg, steps, cnt, v, sigs_out):
     net = simnet.Net()
     h2 = cfg["proto"] == "h2"
     scheme = "https" if h2 else "http"
-    origins = [endpoints.Origin(net, f"o{i}.test", 443 if h2 else 80, tls=h2, alpn=["h2"] if h2 else None)
+    origins = [endpoints.Origin(net, f"o{i}.test", 443 if h2 else 80, tls=h2, alpn=["h2"] if h2 else None,
+                                h2_script={"after_end": cfg["h2_after_end"]} if cfg.get("h2_after_end") else None)
                for i in range(cfg["n_origins"])]
+    cnt["h2_chatter_histories"] = cnt.get("h2_chatter_histories", 0) + bool(cfg.get("h2_after_end"))
     pool = mk_pool(flavor, net, max_connections=cfg["max_connections"], max_keepalive_connections=cfg["max_keepalive"],
                    keepalive_expiry=cfg["keepalive_expiry"], http2=h2)
     api = API(flavor, pool, net)
